@@ -1176,8 +1176,11 @@ class Generator:
             if not m:
                 return None
             op = {"op": "drop_duplicates", "src": m.id}
-            if self.rng.random() < 0.7:
-                op["subset"] = self.rng.sample(sorted(m.cols), self.rng.randint(1, min(2, len(m.cols))))
+            nonfloat = [c_ for c_ in sorted(m.cols) if m.cols[c_] != "float"]
+            if not nonfloat:
+                return None
+            # always a subset without float columns (computed floats carry reduction-order noise)
+            op["subset"] = self.rng.sample(nonfloat, self.rng.randint(1, min(2, len(nonfloat))))
             self._kn(op, ["split_out", "split_every", "shuffle_method"])
             return self.try_add(op, "open", "open", self.next_id, None)
         s = self.pick(self.series(lambda m: list(m.cols.values())[0] != "float"))
